@@ -1122,7 +1122,7 @@ func (c *Conn) exec(ctx context.Context, req frameBuilder, tracer Tracer) (*fram
 		streamID: stream,
 		resp:     make(chan callResp),
 	}
-	c.vConn(vcAlloc, call, stream, 0)
+	c.vConn(vcAlloc, call, stream, verifCtxTok(ctx))
 
 	if c.streamObserver != nil {
 		call.streamObserverContext = c.streamObserver.StreamContext(ctx)
